@@ -403,6 +403,13 @@ def clause_optimize(g: Any, c: V, state: dict, seed: int, pts: list) -> None:
                   f'env {nm}: optimize -> {ps}' + ('; Re tr(env U(p)) is the same for every p, any finite p would do' if flat else ''))
             continue
         f0, a0 = val(ps)
+        nuc = float(np.linalg.svd(env, compute_uv=False).sum())   # Re tr(env U) <= |tr(env U)| <= sum of singular values
+        if f0 >= nuc - tol:
+            c.n('optimize_attains_max_real_trace')
+            continue
+        if a0 >= nuc - tol:
+            c.n('optimize_attains_max_abs_trace_only')
+            continue
         fb, qf = _ascent(val, ps, 0, tol, 16)
         if nm.startswith('U('):
             # the optimum is known: U(p0) itself reaches tr = dim
